@@ -9,8 +9,9 @@
    The regex lexer is not modelled: layout-insensitivity is tested by the
    correspondence check, not proved (partial). *)
 From Coq Require Import String.
-From YQ Require Import Base.Str Gen.OpTable Model.Postfix Model.Tree Spec.PrecSpec Spec.PrecGrammar
-  Proofs.PrecTableProofs Proofs.PostfixProofs.
+From YQ Require Import Base.Str Gen.OpTable Model.Postfix Model.Tree Model.PostProcess
+  Spec.PrecSpec Spec.PrecGrammar Spec.PrecRaw
+  Proofs.PrecTableProofs Proofs.PostfixProofs Proofs.PostProcessProofs.
 Open Scope N_scope.
 
 (* ---- the regenerated table against the specified relation ---- *)
@@ -151,6 +152,23 @@ Theorem C09_equal_precedence_nests_right :
 Proof. exact equal_precedence_nests_right. Qed.
 Print Assumptions C09_equal_precedence_nests_right.
 
+(* ---- token post-processing (lexer.go handleToken), unbounded ---- *)
+
+(* For every expression of the grammar written as the RAW tokens of the lexer
+   (a.b and a[i] without any operator token), for every assignment cptf of
+   CheckForPostTraverse flags: postProcessTokens inserts exactly SHORT_PIPE
+   and TRAVERSE_ARRAY where the grammar has them and nothing else ... *)
+Theorem C09_postprocess_inserts_implicit_operators :
+  forall cptf e, rok cptf e -> post_process (rrender cptf e) = render e.
+Proof. exact post_process_rrender. Qed.
+Print Assumptions C09_postprocess_inserts_implicit_operators.
+
+(* ... hence lexer output to tree: ParseExpression minus the regex lexer *)
+Theorem C09_parse_raw_correct :
+  forall cptf e, okp e -> rok cptf e -> parse_raw (rrender cptf e) = Ok (Some (tree_of e)).
+Proof. exact parse_raw_rrender. Qed.
+Print Assumptions C09_parse_raw_correct.
+
 (* the hypotheses are satisfiable and the two spellings really differ:
    (1 | 2) + select(.a == 1)[length]?  *)
 Example C09_example :
@@ -158,3 +176,10 @@ Example C09_example :
   render (pmin w_example) <> render (pfull w_example) /\
   List.length (render (pmin w_example)) = 16%nat.
 Proof. exact example_ok. Qed.
+
+(* select(.a == 1).b[length]?  from 10 raw tokens to 12 tokens to its tree *)
+Example C09_raw_example :
+  okp w_raw_example /\ rok w_cptf w_raw_example /\
+  List.length (rrender w_cptf w_raw_example) = 10%nat /\
+  List.length (render w_raw_example) = 12%nat.
+Proof. exact raw_example_ok. Qed.
